@@ -13,6 +13,11 @@
 (*    append0     (stable-sort < (append 'vector (lit)))  copies           *)
 (*    restsort    (stable-sort < (rest (lit)))                             *)
 (*    macroarg    a macro sorting a literal it received as an argument     *)
+(*    applyrest / applycdr / applyreq / funcallopt / mapsort / foldsort     *)
+(*                the literal (or a view of it, or a nested literal) is     *)
+(*                handed to a lisp function through apply's list, an        *)
+(*                &rest / &optional parameter or a map / foldl callback,    *)
+(*                and sorted there                                          *)
 (*    define      (set 'counter (+ counter 1)) private state               *)
 (*    read        print the literal again                                  *)
 (*    reload      load the Program again in the same runtime               *)
@@ -36,7 +41,9 @@ CONSTANTS R,          \* number of runtimes
           COW,        \* copy-on-write discipline in force
           EMIT
 
-OPS == {"sort", "cdrsort", "slicepush", "append0", "restsort", "macroarg", "define", "read", "reload"}
+OPS == {"sort", "cdrsort", "slicepush", "append0", "restsort", "macroarg", "define", "read", "reload",
+        \* the literal crossing a function-application boundary before it reaches the in-place sort
+        "applyrest", "applycdr", "applyreq", "funcallopt", "mapsort", "foldsort"}
 LIT == <<3, 1, 2>>
 
 VARIABLES prog,      \* Program region: the literal's backing
@@ -56,6 +63,8 @@ Result(op, lit, counter) ==
     [] op = "slicepush" -> SubSeq(lit, 1, 2) \o <<9>>
     [] op = "append0" -> Sorted(lit)
     [] op = "macroarg" -> Sorted(lit)
+    [] op \in {"applyrest", "funcallopt", "mapsort", "foldsort"} -> Sorted(lit)
+    [] op \in {"applycdr", "applyreq"} -> Sorted(TailOf(lit))
     [] op = "define" -> <<counter + 1>>
     [] op = "read" -> lit
     [] op = "reload" -> <<0>>
@@ -75,7 +84,7 @@ Step(r) == \E op \in OPS :
   LET me == [rt[r] EXCEPT !.script = Append(@, op)] IN
   /\ rt[r].pc <= LEN
   /\ LET res == Result(op, prog, me.counter)
-         writes == ~COW /\ op \in {"sort", "append0", "macroarg"}        \* in-place sort through the literal
+         writes == ~COW /\ op \in {"sort", "append0", "macroarg", "applyrest", "funcallopt", "mapsort", "foldsort"}        \* in-place sort through the literal
          prog2 == IF writes THEN Sorted(prog) ELSE prog IN
      /\ prog' = prog2
      /\ hdrs' = hdrs \cup {[rt |-> r, sealed |-> (COW \/ op \notin {"slicepush", "append0"})]}
